@@ -42,6 +42,11 @@ MUST_QOS_CODES = ("0006", "0404", "0418", "1FC9")
 
 def caller_frames(c: dict[str, Any]) -> dict[str, Any]:
     """The frame a caller sends, its echo and its proper reply (built as text)."""
+    if "frame" in c:  # explicit frames (C06)
+        frame = c["frame"]
+        echo = frame[:7] + GWY_ID + frame[16:] if frame[7:16] == HGI else frame
+        p = frame.split(" ")
+        return {"frame": frame, "echo": echo, "reply": c.get("reply"), "dev": p[-5] if p[-5][:2] != "--" else p[-4], "src": frame[7:16]}
     k = KINDS[c["kind"]]
     i = f"{c['idx']:02X}"
     dev = c.get("dev") or f"01:{145000 + c['idx']:06d}"
@@ -338,6 +343,17 @@ async def _episode(loop: vloop.VirtualLoop, ep: dict[str, Any]) -> dict[str, Any
             await vloop.drain(loop)
         if rig.protocol._pause_writing:
             rig.protocol.resume_writing()
+        if ep.get("no_probe"):
+            for t in tasks:
+                if not t.done():
+                    t.cancel()
+            await asyncio.sleep(0.01)
+            return {
+                "events": rig.events, "quiescent": quiescent, "probe": {"returned": True, "result": "skipped"},
+                "unhandled": list(loop.unhandled), "unhandled_before_probe": n_unhandled_before_probe,
+                "coding_errors_logged": cap.coding_errors[:5], "log_tracebacks": dict(cap.tracebacks),
+                "state_path": rig.state_path, "coincidences": loop.coincidences, "end_vt": loop.time(),
+            }
         rig.in_probe = True
         pc = {"kind": "RQ30C9", "idx": 0x0B, "dev": "01:199999", "timeout": 10, "script": [{}]}
         pt = loop.create_task(rig.caller(len(ep["callers"]), pc), name=f"caller-{len(ep['callers'])}")
@@ -401,13 +417,16 @@ def run_episode(ep: dict[str, Any]) -> dict[str, Any]:
 
 # ======================================================================== oracles
 def effective_wfr(ep: dict[str, Any], c: dict[str, Any]) -> bool:
-    k = KINDS[c["kind"]]
-    if not k["reply"]:
+    if "frame" in c:
+        has_reply, code = bool(c.get("reply")), c["frame"].split(" ")[-3]
+    else:
+        has_reply, code = bool(KINDS[c["kind"]]["reply"]), KINDS[c["kind"]]["code"]
+    if not has_reply:
         return False
     dq = ep.get("disable_qos")
     if dq is True:
         return False
-    if dq is None and k["code"] not in MUST_QOS_CODES:
+    if dq is None and code not in MUST_QOS_CODES:
         return False
     return c.get("wait_for_reply") is True
 
